@@ -31,6 +31,8 @@ Why(e) ==
        (IF e.res = "nil" /\ ~NoDup(e.types) THEN "combined mode: a type is defined twice" ELSE "")
   ELSE IF (e.res = "nil") # (e.inlineres = "nil") THEN "combined mode: verdict differs from generating the inlined schema"
   ELSE IF e.res = "nil" /\ e.types # e.inlinetypes THEN "combined mode: defined types differ from the inlined schema"
+  ELSE IF e.res = "nil" /\ e.compiles # "" THEN "combined mode: the output does not compile: " \o e.compiles
+  ELSE IF e.res = "nil" /\ ~e.samecode THEN "combined mode: the generated declarations differ from those generated for the inlined schema"
   ELSE ""
 
 \* as-is: a path resolved against the wrong directory does not exist in these universes: an open error
